@@ -293,7 +293,10 @@ def gen_build(rng, how=None, want_markings=True):
     if want_markings:
         if rng.random() < 0.45:
             n = rng.choice([1, 1, 2])
-            d["object_marking_refs"] = rng.sample(REF_MARKINGS, n)
+            omr = rng.sample(REF_MARKINGS, n)
+            if rng.random() < 0.3:                             # a producer's list may repeat an id
+                omr = omr + [omr[0]] if rng.random() < 0.6 else [omr[0]] + omr
+            d["object_marking_refs"] = omr
         if rng.random() < 0.45:
             cands = [k for k in ("name", "created", "type", "id", "labels", "created_by_ref", "pattern",
                                  "relationship_type", "external_references", "definition_type") if k in d and d[k]]
@@ -304,6 +307,17 @@ def gen_build(rng, how=None, want_markings=True):
                     gms.append({"lang": rng.choice(LANG_MARKINGS), "selectors": sels})
                 else:
                     gms.append({"marking_ref": rng.choice(REF_MARKINGS), "selectors": sels})
+            r = rng.random()
+            if r < 0.15:
+                gms.append(dict(gms[0]))                       # the same granular marking twice
+            elif r < 0.3:
+                g0 = dict(gms[0])
+                g0["selectors"] = [rng.choice(cands)]          # the same marking again on another / the same selector
+                gms.append(g0)
+            elif r < 0.4:
+                gms[0] = dict(gms[0], selectors=gms[0]["selectors"] + gms[0]["selectors"][:1])   # a selector listed twice
+            elif r < 0.5 and how == "dict":
+                gms[0] = dict(gms[0], lang=rng.choice(LANG_MARKINGS), marking_ref=rng.choice(REF_MARKINGS))   # both kinds in one entry
             d["granular_markings"] = gms
     return {"how": how, "version": "2.1" if v21 else "2.0", "cls": cls, "data": d}
 
